@@ -153,9 +153,27 @@ package wal
 //@ ensures forall s int64 :: old(ghset(keys, r.allSegments, s)) && (s > offset || forall j int64 :: old(ghset(keys, r.allSegments, j)) && j <= offset ==> j <= s) ==> ghset(keys, r.allSegments, s)
 //@ modifies fields(readOnlySegment), fields(readWriteSegment), ghset(keys, r.allSegments), ghset(keys, r.openSegments)
 
-//@ func readOnlySegmentsGroup.PollHighestSegment
+//@ func newReadOnlySegment
 //@ trusted
-//@ modifies fields(readOnlySegmentsGroup), fields(readOnlySegment)
+//@ modifies nothing
+//@ ensures result1 == nil ==> result0 != nil
+//@ note trusted: opens and maps the segment files
+
+// PollHighestSegment takes the segment with the highest base offset out of the group:
+// afterwards the group no longer lists it, neither among all segments nor in the cache
+// of open segments (the cache only ever holds segments the group still lists — otherwise
+// a later segment with the same base offset would be served from a stale, closed entry).
+//
+//@ func readOnlySegmentsGroup.PollHighestSegment(r) (seg, err)
+//@ property C09
+//@ assume r.allSegments != nil && r.openSegments != nil because "both trees are created by newReadOnlySegmentsGroup, the only constructor, and never reassigned"
+//@ assume at call Tree.Get#0: found ==> value != nil because "openSegments only holds RefCount objects created by object.NewRefCount (Get, PollHighestSegment)"
+//@ assume forall k int64 :: ghset(keys, r.openSegments, k) ==> ghset(keys, r.allSegments, k) because "invariant of the group on entry: the cache starts empty, Get caches only a base offset it found among all segments, TrimSegments removes from both trees, cleanSegmentsCache only removes from the cache; this function must keep it (its postcondition)"
+//@ ensures forall k int64 :: ghset(keys, r.openSegments, k) ==> ghset(keys, r.allSegments, k)
+//@ ensures forall k int64 :: ghset(keys, r.allSegments, k) ==> old(ghset(keys, r.allSegments, k))
+//@ ensures (exists k int64 :: old(ghset(keys, r.allSegments, k))) ==> exists m int64 :: old(ghset(keys, r.allSegments, m)) && !ghset(keys, r.allSegments, m) && (forall j int64 :: old(ghset(keys, r.allSegments, j)) ==> j <= m) && (forall j int64 :: old(ghset(keys, r.allSegments, j)) && j != m ==> ghset(keys, r.allSegments, j))
+//@ ensures !(exists k int64 :: old(ghset(keys, r.allSegments, k))) ==> seg == nil && err == nil
+//@ modifies ghset(keys, r.allSegments), ghset(keys, r.openSegments)
 
 //@ func readOnlySegmentsGroup.GetLastCrc
 //@ trusted
